@@ -111,6 +111,11 @@ struct held_view {
   const std::byte* p;
   std::size_t n;
   std::string copy;
+  // the library's own view object is kept alive until the holder's next quiescent state, as a caller may:
+  // in assertion-enabled builds it is a registered active pointer, so a quiescent state announced for this
+  // thread while the view is alive - e.g. by the index itself, inside an operation - trips the library's
+  // "no active pointers" assertion
+  unodb::qsbr_value_view view;
 };
 
 struct olc_harness final : harness {
@@ -406,7 +411,7 @@ struct olc_harness final : harness {
                 if (o.res) {
                   const std::byte* p = r->begin().get();
                   o.val.assign(reinterpret_cast<const char*>(p), r->size());
-                  held[t].push_back({p, r->size(), o.val});
+                  held[t].push_back({p, r->size(), o.val, *r});
                 }
               }
               o.ret = S.stamp();
@@ -442,7 +447,7 @@ struct olc_harness final : harness {
                 const auto vv = vis.get_value();
                 const std::byte* vp = vv.begin().get();
                 std::string vs(reinterpret_cast<const char*>(vp), vv.size());
-                held[t].push_back({vp, vv.size(), vs});
+                held[t].push_back({vp, vv.size(), vs, vv});
                 o.out.emplace_back(std::move(ks), std::move(vs));
                 // the visitor boundary is a scheduling point: writers may run "between two entries"
                 S.op_boundary();
